@@ -1,7 +1,7 @@
 """C01 — acknowledged writes survive a crash; restart succeeds.  Ordering protocol (engine M) +
 fsync policy / frame layout kernels (engine K)."""
 from vlib.mo import *
-from vlib.runner import run_mir_obligations
+from vlib.runner import KH, run_kani_group, run_mir_obligations
 
 LEVEL = "other"
 EXPLANATION = ("Structural obligations over the MIR CFGs of the durability protocol (every path of the named functions, "
@@ -168,6 +168,38 @@ MOS.append(MO("O1.9/seq_allocation", "sequence allocation: next_wal_seq.fetch_ad
               seq_allocation, functions=[("hnsw_backend.rs", f) for f in ("insert", "delete", "update_metadata", "batch_delete")]))
 
 
+def prepare_persistence_overlay(o):
+    """cfg(kani) file-system model: persistence.rs imports File/OpenOptions from crate::verif_fs (DESIGN 1.1)."""
+    ok = o.replace_once("persistence.rs", "use std::fs::{File, OpenOptions};",
+                        "#[cfg(not(kani))]\nuse std::fs::{File, OpenOptions};\n#[cfg(kani)]\nuse crate::verif_fs::{File, OpenOptions};",
+                        "cfg(kani): File/OpenOptions come from the in-memory model crate::verif_fs")
+    if not ok:
+        raise RuntimeError("persistence.rs import line `use std::fs::{File, OpenOptions};` not found verbatim")
+    txt = o.read("persistence.rs")
+    n = txt.count("std::fs::rename(")
+    txt = txt.replace("std::fs::rename(", "crate::verif_fs::rename(")
+    o.write("persistence.rs", txt)
+    o.edits.append(("persistence.rs", "kani overlay: %d std::fs::rename call(s) -> crate::verif_fs::rename" % n))
+
+
+FP = [("persistence.rs", "create_with_error_handler"), ("persistence.rs", "append_internal"), ("persistence.rs", "write_entry"), ("persistence.rs", "perform_fsync")]
+PA = ["file-system model crate::verif_fs (writes land at the append position; sync makes the current length durable)", "model checksum instead of crc32fast::hash", "entries with empty embedding and metadata (44-byte payload)"]
+HARNESSES = [
+    KH("O1.8/append_always", "c01_o8_append_always", "WalWriter::create + two append_internal calls: magic durable; each acknowledged entry is one well-formed frame; counters match; Always => durable",
+       src="persistence.rs", functions=FP, bounds="2 appends of entries with arbitrary op/doc_id/seq_no/timestamp, empty payload; file capacity 128 bytes; unwind 50", assumptions=PA, timeout=900, replay="solver-only"),
+] + [
+    KH("O1.3/periodic_" + r, "c01_o3_periodic_" + r, "FsyncPolicy::Periodic(i): a sync happens iff i == 0 or >= i ms elapsed since the last one; last_fsync advances only then (append at %s after creation)" % r,
+       src="persistence.rs", functions=FP, bounds="interval symbolic 0..10 s; append instant concrete (%s); symbolic entry" % r, assumptions=PA, timeout=900, replay="solver-only", tier=t)
+    for r, t in (("t0", "thorough"), ("t1ns", "thorough"), ("t500ms", "quick"), ("t2999999us", "thorough"))
+] + [
+    KH("O1.3/never", "c01_o3_never_policy", "FsyncPolicy::Never: written, not synced", src="persistence.rs", functions=FP, bounds="one append", assumptions=PA, timeout=900, replay="solver-only", tier="thorough"),
+    KH("O1.3/periodic_idle", "c01_o3_periodic_idle", "FsyncPolicy::Periodic(i): an entry acknowledged more than i before a power failure is durable even if no later call arrives",
+       src="persistence.rs", functions=FP, bounds="interval symbolic 1 ms..10 s; one append 1 ms after creation, then silence", assumptions=PA, timeout=900, replay="solver-only", role="periodic-fsync-needs-a-later-append"),
+]
+
+
 def run(tier, seed, notes):
     obls = run_mir_obligations("C01", tier, MOS, notes)
+    obls += run_kani_group("C01", tier, "lib", {"persistence.rs": "persistence_proofs.rs"}, HARNESSES, support=("verif_fs",), elide_tracing=("persistence.rs",),
+                           prepare=prepare_persistence_overlay, jobs=4, notes=notes)
     return obls
